@@ -6,7 +6,7 @@
    are skipped by `step` itself, illegal random outcomes are rejected by `step` itself, so no
    hypothesis on the history is needed.  wf c  :=  0 < width /\ 0 < height. *)
 From Coq Require Import ZArith List Bool.
-From Mesa Require Import Common.ListX Generated.Tables Model.LegacyGrid Proofs.LegacyGridProofs Proofs.LegacyGridSim.
+From Mesa Require Import Common.ListX Generated.Tables Model.LegacyGrid Proofs.LegacyGridProofs Proofs.LegacyGridSim Proofs.LegacyGridRefine.
 Import ListNotations.
 Open Scope Z_scope.
 
@@ -66,6 +66,24 @@ Theorem C08_agents_once : forall c ops,
   NoDup (view_agents c s) /\ forall a, In a (view_agents c s) <-> exists p, pos s a = Some p.
 Proof. exact agents_once_history. Qed.
 Print Assumptions C08_agents_once.
+
+(* --- place_agent of an unplaced agent at in-grid coordinates: succeeds (always on a MultiGrid, on a
+       SingleGrid iff the cell is empty) and touches nobody else, or is rejected with s' = s *)
+Theorem C08_place : forall c s a p s' r,
+  Agree c s -> pos s a = None -> out_of_bounds c p = false -> step c s (Place a p) = (s', r) ->
+  (r = Ok [] /\ pos s' a = Some p /\ (forall b, b <> a -> pos s' b = pos s b) /\
+     (c_multi c = false -> grid s p = [])) \/
+  (s' = s /\ r = Err E_CELL_NOT_EMPTY /\ c_multi c = false /\ grid s p <> []).
+Proof. exact place_step. Qed.
+Print Assumptions C08_place.
+
+(* --- remove_agent: pos becomes None, nobody else and no other cell is touched *)
+Theorem C08_remove : forall c s a p s' r,
+  Agree c s -> pos s a = Some p -> step c s (Remove a) = (s', r) ->
+  r = Ok [] /\ pos s' a = None /\ (forall b, b <> a -> pos s' b = pos s b) /\
+  (forall q, q <> p -> grid s' q = grid s q).
+Proof. exact remove_step. Qed.
+Print Assumptions C08_remove.
 
 (* --- targets outside a toroidal grid are wrapped (any integers), everybody else stays *)
 Theorem C08_torus_wrap : forall c s a pa p s' r,
@@ -181,6 +199,26 @@ Theorem C08_empties_read_is_transparent : forall c n ops rest,
 Proof. exact empties_read_transparent_history. Qed.
 Print Assumptions C08_empties_read_is_transparent.
 
+(* --- refinement: seen through agent.pos alone, every call after every history is a step of the
+       abstract position-map machine `aspec` (Proofs/LegacyGridRefine.v), which does not mention
+       _grid, _empties or _empty_mask: placement / movers / swap / rejections exactly as the
+       statement describes them *)
+Theorem C08_refines_position_map : forall c ops o s' r,
+  wf c -> step c (run c init ops) o = (s', r) -> aspec c (pos (run c init ops)) o (pos s') r.
+Proof. exact history_refines. Qed.
+Print Assumptions C08_refines_position_map.
+
+(* --- the stream the correspondence check (T2) compares with the implementation: its i-th entry is
+       produced by this very `step` from the state `run c init (first i ops)` of the theorems *)
+Theorem C08_run_case_is_step : forall k i o,
+  nth_error (k_ops k) i = Some o ->
+  length (run_case k) = length (k_ops k) /\
+  nth_error (run_case k) i =
+    Some (let sr := step (k_cfg k) (run (k_cfg k) init (firstn i (k_ops k))) o in
+          obs_res (snd sr) ++ (-8) :: obs_state (k_cfg k) (k_n k) (fst sr)).
+Proof. exact run_case_is_step. Qed.
+Print Assumptions C08_run_case_is_step.
+
 (* ------------------------------------------------------------------ non-vacuity *)
 Definition ex_cfg_s : cfg := {| c_w := 3; c_h := 2; c_torus := true; c_multi := false |}.
 Definition ex_cfg_m : cfg := {| c_w := 3; c_h := 2; c_torus := false; c_multi := true |}.
@@ -264,4 +302,15 @@ Example C08_example_transparent :
   let s := run ex_cfg_m init [Place 1 (0, 0); Place 2 (0, 0)] in
   let rest := [Move 1 (2, 1); MoveToEmpty 2 false (1, 1); Remove 1; ReadMask; ReadEmpties] in
   built s = false /\ built (fst (step ex_cfg_m s ReadEmpties)) = true /\ length (run_obs ex_cfg_m 2 s rest) = 5%nat /\ run_obs ex_cfg_m 2 (fst (step ex_cfg_m s ReadEmpties)) rest = run_obs ex_cfg_m 2 s rest.
+Proof. vm_compute. repeat split; congruence. Qed.
+
+(* C08_place / C08_remove / C08_refines_position_map / C08_run_case_is_step *)
+Example C08_example_place_remove :
+  let s := run ex_cfg_s init [Place 1 (0, 0)] in
+  pos s 2 = None /\ out_of_bounds ex_cfg_s (2, 1) = false /\
+  snd (step ex_cfg_s s (Place 2 (2, 1))) = Ok [] /\ snd (step ex_cfg_s s (Place 2 (0, 0))) = Err E_CELL_NOT_EMPTY /\
+  snd (step ex_cfg_s s (Remove 1)) = Ok [] /\
+  nth_error ex_hist 3 = Some (Move 1 (4, 3)) /\
+  nth_error (run_case {| k_cfg := ex_cfg_s; k_n := 2; k_ops := ex_hist |}) 3 =
+    Some [-1; 2; -8; 0; 65537; -7; 1; 1; 0; 0; 1; 2; 0; 0; -7; 1; 65536; 131072; 131073; -7; 0; 1; 1; 0; 1; 1].
 Proof. vm_compute. repeat split; congruence. Qed.
